@@ -671,6 +671,34 @@ PROPERTIES["C05"]["jobs"] += [
 ]
 PROPERTIES["C05"]["jobs"][-1]["build"] = B("bs", "fast")
 
+
+
+# ---- proactive generalisations of the seeded-change lessons
+PROPERTIES["C03"]["jobs"] += [
+    ss("long", "memmem,finder,finder-nopre,iter-first", RESULT, "ss/long/fwd (length-threshold sizes)"),
+    ss("aliased", "memmem,finder,iter-first,twoway,rk", RESULT, "ss/aliased/fwd (needle is a sub-slice of the haystack's buffer)"),
+    ss("e", FWD, RESULT, "ss/E2/fwd (release build)", ["--letters", "ab"], profile="fast", q=["--nmax", "6", "--hmax", "13"], t=["--nmax", "7", "--hmax", "15"]),
+    {"name": "ss[k3]/long/fwd", "build": V("ss", "k3"), "classes": RESULT, "args": ["long", "--tier", "{tier}", "--subjects", "memmem,finder,finder-nopre"]},
+    {"name": "ss[k4]/long/fwd", "build": K("ss", "k4"), "classes": RESULT, "args": ["long", "--tier", "{tier}", "--subjects", "memmem,finder"]},
+]
+PROPERTIES["C04"]["jobs"] += [
+    ss("long", "rmemmem,rfinder,riter-first", RESULT, "ss/long/rev (length-threshold sizes)"),
+    ss("aliased", "rmemmem,rfinder,rtwoway,rrk", RESULT, "ss/aliased/rev"),
+    ss("e", REV, RESULT, "ss/E2/rev (release build)", ["--letters", "ab"], profile="fast", q=["--nmax", "6", "--hmax", "13"], t=["--nmax", "7", "--hmax", "15"]),
+]
+PROPERTIES["C11"]["jobs"] += [ss("long", PFS, RESULT, "ss/long/prefilter")]
+PROPERTIES["C12"]["jobs"] += [ss("long", "twoway,rtwoway,rk,rrk,pp-sse2,pp-avx2", RESULT, "ss/long/blocks"), ss("aliased", "twoway,rk,rtwoway,rrk", RESULT, "ss/aliased/blocks")]
+PROPERTIES["C10"]["jobs"] += [ss("long", ranked(["default", "zero", "identity", "needle-common"]), RESULT, "ss/long/rankers")]
+PROPERTIES["C05"]["jobs"] += [ss("long", "memmem,finder,rmemmem,rfinder,pf-vn8,pp-vn8", MEMORY, "ss/long/vn-monitored")]
+for pid in ("C01", "C02"):
+    op = "find" if pid == "C01" else "rfind"
+    PROPERTIES[pid]["jobs"] += [
+        {"name": "bs/full/%s (release build)" % op, "build": B("bs", "fast"), "classes": RESULT, "args": ["full", "--tier", "{tier}", "--ops", op, "--subjects", "swar,sse2,avx2,top"],
+         "tier_args": {"quick": ["--l1", "14", "--l2", "9", "--l3", "7"], "thorough": ["--l1", "18", "--l2", "11", "--l3", "9"]}},
+    ]
+for pid in ("C03", "C04"):
+    PROPERTIES[pid]["explanation"] += " Further spaces: `long` (haystacks of 2^k-1, 2^k, 2^k+1 bytes for k = 6..12 with one occurrence at each position near either end or none, plain / with bare pair hits every 7 bytes / filled with the needle's first byte), `aliased` (needle and haystack are sub-slices of ONE buffer, every pair), and E2 again in a plain release build."
+
 HOOK_COMMITS = ["ffdf165", "556bbde", "0f24165", "8fa21ee"]
 
 ENGINES = [
